@@ -111,7 +111,14 @@ class Watch(object):
         self.base = None
 
     def _prof(self, frame, event, arg):
-        if event != 'return' or '/kmip/' not in frame.f_code.co_filename:
+        if event != 'return':
+            return
+        if '/kmip/' not in frame.f_code.co_filename:
+            # a call OUT of the package (socket recv/send, an HTTP lookup, the database): the place
+            # where a real server blocks and other sessions run - always sampled
+            back = frame.f_back
+            if back is not None and '/kmip/' in back.f_code.co_filename:
+                self.sample()
             return
         self.n += 1
         if self.n % self.stride == 0:
